@@ -172,7 +172,7 @@ def build(tier):
             tail_lens = [0, 2, 3] if tier == 'quick' else [0, 1, 2, 3, 4, 5]
         for n in free_lens:
             name = f'{mod}_free{n}'
-            h = Harness(name, unwind=max(len(pfx), n) + 3, stubs=stubs, timeout=(900 if heavy else 600) if tier == 'quick' else 3600,
+            h = Harness(name, unwind=(max(len(pfx), n, 12) + 4) if mod == 'path' else max(len(pfx), n) + 3, stubs=stubs, timeout=(900 if heavy else 600) if tier == 'quick' else 3600,
                         note=f'{mod}::Pinned::from_str on every ASCII string of length {n} (prefix-absent paths)', meta={'parser': mod, 'shape': 'free', 'len': n})
             body = (f'    let mut buf = [0u8; {n}];\n    let len = sym_str::<{n}>(b"", &mut buf);\n'
                     f'    let s = unsafe {{ std::str::from_utf8_unchecked(&buf[..len]) }};\n'
@@ -182,7 +182,7 @@ def build(tier):
         for n in tail_lens:
             name = f'{mod}_tail{n}'
             tot = len(pfx) + n
-            h = Harness(name, unwind=tot + 3, stubs=stubs, timeout=(900 if heavy else 600) if tier == 'quick' else 3600,
+            h = Harness(name, unwind=(max(tot, 12) + 4) if mod == 'path' else tot + 3, stubs=stubs, timeout=(900 if heavy else 600) if tier == 'quick' else 3600,
                         note=f'{mod}::Pinned::from_str on "{pfx}" followed by every ASCII string of length {n}', meta={'parser': mod, 'shape': 'tail', 'len': n})
             body = (f'    let mut buf = [0u8; {tot}];\n    let len = sym_str::<{n}>(b"{pfx}", &mut buf);\n'
                     f'    let s = unsafe {{ std::str::from_utf8_unchecked(&buf[..len]) }};\n'
